@@ -135,10 +135,12 @@ func (c *Client) channelOK() bool {
 }
 
 func (c *Client) getOrBuildChannel(ctx context.Context) (*ClientChannel, error) {
-	if c.channelOK() {
-		c.mu.RLock()
-		defer c.mu.RUnlock()
-		return c.channel, nil
+	// Read the field once: another caller may be replacing a channel that has just been lost
+	c.mu.RLock()
+	channel := c.channel
+	c.mu.RUnlock()
+	if channel != nil && channel.Established() {
+		return channel, nil
 	}
 
 	select {
